@@ -167,7 +167,11 @@ pub fn dir_check_now(out: &mut CaseOut, sess: &mut Session, when: &str, ctx: &se
     if !missing.is_empty() {
         out.violate(format!("{prop}/live-file-missing/table/{when}"), detail("tables_of_current_version_missing", json!(missing)));
     }
-    if wals.len() != 1 || wals[0] != probe.curr_wal_number {
+    // exactly one write-ahead log, and not one older than the number the manifest names. (Not
+    // "equal": an open that takes the old manifest over and finds no log to replay creates a fresh
+    // log without writing a manifest record, so the manifest's number lags behind until the next
+    // flush - recovery replays every log from that number on, the fresh one included.)
+    if wals.len() != 1 || wals[0] < probe.curr_wal_number {
         let sig = if wals.len() > 1 { "dead-file-kept/wal" } else { "live-file-missing/wal" };
         out.violate(format!("{prop}/{sig}/{when}"), detail("wals", json!(wals)));
     }
